@@ -95,6 +95,12 @@ func FromBytes(data []byte) (*Labels, error) {
 // length or missing bytes.
 var ErrBufferTooShort = errors.New("rfc1035label: buffer too short")
 
+// maxNameLength is the longest dotted name whose wire form (one length octet
+// per label plus the terminating zero) fits the 255 octets RFC 1035 section
+// 2.3.4 allows. Without the limit a few kilobytes of compression pointers to
+// one long name expand to tens of megabytes.
+const maxNameLength = 253
+
 // fromBytes decodes a serialized stream and returns a list of labels
 func labelsFromBytes(buf []byte) ([]string, error) {
 	var (
@@ -155,6 +161,9 @@ func labelsFromBytes(buf []byte) ([]string, error) {
 				label += "."
 			}
 			label += chunk
+			if len(label) > maxNameLength {
+				return nil, errors.New("rfc1035label: name longer than 255 octets")
+			}
 			pos += length
 		}
 	}
